@@ -4,6 +4,7 @@
 import TwProofs.Lemmas.Escape
 import TwProofs.Lemmas.TextIf
 import TwProofs.Lemmas.TextRaw
+import TwProofs.Lemmas.TextConcat
 
 namespace Tw.C10
 open Tw
@@ -98,5 +99,33 @@ example : evaluateStringPure [] (b "{{ \"<b>a & b</b>\".raw() }}") [] = .ok (b "
   have hs : rawSrc [32] 34 (b "<b>a & b</b>") [32] = b "{{ \"<b>a & b</b>\".raw() }}" := by decide
   rw [hs] at this
   exact this
+
+/-- **joined literals are escaped one by one, from the source bytes on**: `{{ "a" + 'b' }}` — either quote
+    for each literal, any white space inside the braces and around the `+` — renders
+    `literalValue a ++ literalValue b`: each literal escaped on its own, nothing escaped twice, nothing
+    added by the join.  Lexer (`lex_concat`), parser (`parse_concat_source`) and evaluator composed. -/
+theorem joined_literals_print_escaped_from_source (custom : List ((VType × Bytes) × Nat)) (g1 g2 g3 g4 c1 c2 : Bytes) (q1 q2 : Byte)
+    (hg1 : allWs g1) (hg2 : allWs g2) (hg3 : allWs g3) (hg4 : allWs g4) (hq1 : q1 = 34 ∨ q1 = 39) (hq2 : q2 = 34 ∨ q2 = 39)
+    (hp1 : PlainStr q1 c1) (hp2 : PlainStr q2 c2)
+    (data : List (Bytes × GoVal)) (env : Env) (henv : envFromMap data = .ok env) :
+    evaluateStringPure custom (concatSrc g1 q1 c1 g3 g4 q2 c2 g2) data = .ok (literalValue c1 ++ literalValue c2) := by
+  obtain ⟨prog, t2, t3, t4, hpp, hs⟩ := parse_concat_source g1 q1 c1 g3 g4 q2 c2 g2 hg1 hg2 hg3 hg4 hq1 hq2 hp1 hp2
+  unfold evaluateStringPure envOrFail
+  rw [hpp]
+  simp only [henv, hs]
+  rw [show evalFuel = (evalFuel - 6) + 1 + 1 + 1 + 1 + 1 + 1 from by decide, evalProg_cons, evalStmt_succ]
+  simp only [stmtBody, calleesAt_expr]
+  simp only [evalExpr, infixOp, Val.type, show (VType.STRING != VType.STRING) = false from by decide, Bool.false_eq_true, if_false, strInfix,
+    show (([43] : Bytes) == b "==") = false from by decide, show (([43] : Bytes) == b "!=") = false from by decide,
+    show (([43] : Bytes) == b "+") = true from by decide, if_true, Res.bind_ok]
+  rw [evalProg_nil]
+  simp [resToOut, Val.toStr]
+
+example : evaluateStringPure [] (b "{{ \"<a>\" + '&' }}") [] = .ok (b "&lt;a&gt;&amp;") := by
+  have h := joined_literals_print_escaped_from_source [] (b " ") (b " ") (b " ") (b " ") (b "<a>") (b "&") 34 39 (by decide) (by decide)
+    (by decide) (by decide) (Or.inl rfl) (Or.inr rfl) (by decide) (by decide) [] [[]] (by rfl)
+  have h2 : literalValue (b "<a>") ++ literalValue (b "&") = b "&lt;a&gt;&amp;" := by decide
+  rw [h2] at h
+  exact h
 
 end Tw.C10
